@@ -454,6 +454,11 @@ func (n *ForNode) renderForLoop(w io.Writer, ctx *RenderContext, seq interface{}
 		return nil
 	}
 
+	// Give the enclosing loop its own "loop" variable back when this loop is done
+	if outerLoop, nested := loopCtx.context["loop"]; nested {
+		defer loopCtx.SetVariable("loop", outerLoop)
+	}
+
 	// Update loop.length
 	loopVars["loop"].(map[string]interface{})["length"] = length
 
